@@ -35,7 +35,7 @@ InitP == [ver |-> 0, ep |-> 0, S |-> [h \in Hs |-> IF h \in Dyn THEN Absent ELSE
 Init == /\ p = InitP
         /\ log = <<>>
         /\ pub = [e \in 0..MaxEpoch |-> [h \in Hs |-> IF e = 0 /\ h \notin Dyn THEN {0} ELSE {}]]
-        /\ c = [phase |-> "initialized", ver |-> 0, ep |-> 0, S |-> InitP.S, buf |-> <<>>, snap |-> NoSnap, clean |-> TRUE, exp |-> 1, seen |-> {}]
+        /\ c = [phase |-> "initialized", ver |-> 0, ep |-> 0, S |-> InitP.S, buf |-> <<>>, snap |-> NoSnap, clean |-> TRUE, exp |-> 1, seen |-> {}, late |-> <<>>]
         /\ nd = 0 /\ hist = <<>>
 
 Present(S) == {h \in Hs : S[h] # Absent}
@@ -115,7 +115,7 @@ Deliver(i) == /\ nd < MaxDeliver /\ i \in 1..Len(log)
 
 \* reload_all, split at the point where GetMdib is answered
 BeginLoad == /\ c.phase \in {"invalid", "initialized"} /\ nd < MaxDeliver
-             /\ c' = [c EXCEPT !.phase = "initializing", !.buf = <<>>, !.snap = NoSnap, !.clean = FALSE, !.seen = {}]
+             /\ c' = [c EXCEPT !.phase = "initializing", !.buf = <<>>, !.snap = NoSnap, !.clean = FALSE, !.seen = {}, !.late = <<>>]
              /\ nd' = nd + 1
              /\ UNCHANGED <<p, log, pub>>
              /\ Log([act |-> "BeginLoad"])
@@ -130,17 +130,32 @@ Snapshot == /\ c.phase = "initializing" /\ c.snap = NoSnap
             /\ UNCHANGED <<p, log, pub, nd>>
             /\ Log([act |-> "Snapshot"])
 
-\* the response is processed, then the reports buffered meanwhile are replayed
+\* a report that arrives from the receiver thread WHILE the buffered reports are being replayed: the receiver
+\* blocks on the buffer lock until the load has finished and is processed normally afterwards
+ArriveDuringReplay(i) ==
+  /\ c.phase = "initializing" /\ c.snap # NoSnap /\ c.buf # <<>> /\ Len(c.late) < 2
+  /\ nd < MaxDeliver /\ i \in 1..Len(log)
+  /\ i >= Len(log) - 1      \* the receiver thread carries current traffic: one of the two newest reports
+  /\ c' = [c EXCEPT !.late = Append(@, log[i])]
+  /\ nd' = nd + 1
+  /\ UNCHANGED <<p, log, pub>>
+  /\ Log([act |-> "ArriveDuringReplay", i |-> i])
+
+RECURSIVE ReceiveAll(_, _, _)
+ReceiveAll(cc, rs, i) == IF i > Len(rs) THEN cc ELSE ReceiveAll(Receive(cc, rs[i]), rs, i + 1)
+
+\* the response is processed, then the reports buffered meanwhile are replayed, then the late arrivals are handled
 EndLoad == /\ c.phase = "initializing" /\ c.snap # NoSnap
-           /\ LET snap == [c EXCEPT !.ver = c.snap.ver, !.ep = c.snap.ep, !.S = c.snap.S] IN
-                c' = [Replay(snap, c.buf, 1) EXCEPT !.phase = "initialized", !.buf = <<>>, !.snap = NoSnap]
+           /\ LET snap == [c EXCEPT !.ver = c.snap.ver, !.ep = c.snap.ep, !.S = c.snap.S]
+                  done == [Replay(snap, c.buf, 1) EXCEPT !.phase = "initialized", !.buf = <<>>, !.snap = NoSnap]
+              IN c' = [ReceiveAll(done, c.late, 1) EXCEPT !.late = <<>>]
            /\ UNCHANGED <<p, log, pub, nd>>
            /\ Log([act |-> "EndLoad"])
 
 Next == \/ \E hs \in SUBSET Hs : CommitState(hs)
         \/ \E h \in Hs : CommitDescrUpdate(h) \/ CommitDelete(h) \/ CommitCreate(h)
         \/ (\E k \in {"seq", "inst"} : Restart(k)) \/ BeginLoad \/ Snapshot \/ EndLoad
-        \/ \E i \in 1..MaxCommits : Deliver(i)
+        \/ \E i \in 1..MaxCommits : Deliver(i) \/ ArriveDuringReplay(i)
 
 Spec == Init /\ [][Next]_vars
 
@@ -156,7 +171,7 @@ Published == c.phase = "initialized" => \A h \in Hs : c.S[h] # Absent => c.S[h] 
 Frozen == [][(c.phase = "invalid" /\ c'.phase = "invalid") => CT(c') = CT(c)]_vars
 \* after a (re)load the consumer holds a snapshot the provider really had (version and states of one instant)
 \* or later published states on top of it - never older ones
-LoadNotOlder == [][EndLoad => (c'.ver >= c.snap.ver
+LoadNotOlder == [][EndLoad => ((c'.phase = "initialized" /\ c'.ep = c.snap.ep) => c'.ver >= c.snap.ver
                                 /\ \A h \in Hs : (c.snap.S[h] # Absent /\ c'.S[h] # Absent) => c'.S[h] >= c.snap.S[h])]_vars
 
 \* C01 as the special case: every report delivered in emission order, exactly once, none missing, no reload
